@@ -1,6 +1,6 @@
 (* Accounting facts behind C16: a cache hit evaluates nothing; an evaluated query is answered from the cache afterwards;
-   with the exact-key memo a measure entry is never displaced (so each (node, ComputeSize input) is evaluated at most
-   once between invalidations), a final-layout entry only by a later PerformLayout store. *)
+   with the exact-key memo a measure entry is never displaced, a final-layout entry only by a later PerformLayout store.
+   (These are ingredients only: no evaluation counter is defined and no "at most once" theorem is stated.) *)
 From Coq Require Import List Bool Arith Lia.
 From TV Require Import Model.Engine.
 Import ListNotations.
